@@ -17,6 +17,7 @@ import json
 import os
 import random
 import subprocess
+import threading
 
 import vlib
 from vlib import Check, Scratch, Probe, ProbeDied, log
@@ -146,7 +147,7 @@ def part1(chk, tier):
             continue
         for b in bad:
             chk.violation({"level": "ddptypes", "law": b["law"], "a_shape": shape_of_term(parse_term(b["a"])),
-                           "b_shape": shape_of_term(parse_term(b["b"])) if b.get("b") else "", "got": b["got"][:60], "want": b["want"][:60]},
+                           "b_shape": shape_of_term(parse_term(b["b"])) if b.get("b") else ""},
                           files={"bad.json": json.dumps(b, indent=1, ensure_ascii=False), "args.json": json.dumps(args)},
                           text="%s: a=%s b=%s c=%s got %s want %s" % (b["law"], b["a"], b.get("b"), b.get("c"), b["got"], b["want"]))
         rejudge_samples(chk, samples)
@@ -293,17 +294,38 @@ class Harness(Exception):
     pass
 
 
-def observe(sc, tys, pairs, tag, declare_all=True):
+_tl = threading.local()
+_probes = []
+
+
+def thread_probe(sc):
+    """one ddpprobe child per worker thread, reused for all its programs"""
+    pr = getattr(_tl, "probe", None)
+    if pr is None:
+        pr = _tl.probe = Probe(sc.path)
+        _probes.append(pr)
+    return pr
+
+
+def close_probes():
+    for pr in _probes:
+        pr.close()
+    del _probes[:]
+    _tl.__dict__.clear()
+
+
+def observe(sc, tys, pairs, tag, declare_all=True, bulk=False):
     """{pair_index: {position: accepted}} as decided by the real front end"""
     src, where, control = make_program(tys, pairs, declare_all)
     d = sc.sub(tag)
     f = os.path.join(d, "main.ddp")
     vlib.write_file(f, src)
-    pr = Probe(d)
-    try:
+    pr = thread_probe(sc)
+    if bulk:
+        # `repeat` with n=1 is one parser.Parse like `parse`, without rendering every diagnostic against the source
+        r = pr.request({"op": "repeat", "id": tag, "file": f, "n": 1}, wall_s=300)["first"]
+    else:
         r = pr.request({"op": "parse", "id": tag, "file": f}, wall_s=300)
-    finally:
-        pr.close()
     if r.get("panic") or r.get("err") or r.get("read_error"):
         raise Harness("front end did not return normally on %s: %s" % (tag, r.get("panic") or r.get("err") or r.get("read_error")))
     obs = {n: {"init": True, "assign": True, "cast": True} for n in range(len(pairs))}
@@ -361,7 +383,7 @@ def part2(chk, tier, sc):
     allpairs = [(i, j) for i in range(n) for j in range(n)]
     pairs = allpairs
     rng.shuffle(pairs)  # every program sees a mix of types
-    per = 80  # small programs: the probe renders every diagnostic against the whole source text
+    per = 120
     chunks = [pairs[k:k + per] for k in range(0, len(pairs), per)]
 
     def confirm(pair):
@@ -369,7 +391,7 @@ def part2(chk, tier, sc):
 
     def job(k):
         try:
-            obs, src = observe(sc, tys, chunks[k], "prog%d" % k, declare_all=False)
+            obs, src = observe(sc, tys, chunks[k], "prog%d" % k, declare_all=False, bulk=True)
         except (Harness, ProbeDied) as e:
             return k, None, str(e)
         return k, obs, src
@@ -412,7 +434,10 @@ def run(tier):
     chk = Check(PID, tier)
     pd, td = part1(chk, tier)
     with Scratch("c14") as sc:
-        depth, n, npairs = part2(chk, tier, sc)
+        try:
+            depth, n, npairs = part2(chk, tier, sc)
+        finally:
+            close_probes()
     chk.rule = ("part 1 (exhaustive): all ordered pairs of the depth-%d closure and all ordered triples of the depth-%d closure of {Zahl, Kommazahl, Byte, Wahrheitswert, "
                 "Buchstabe, Text, Variable, two same-named Kombinationen} under list-of, alias-of (two siblings), definition-of (two siblings), built with the real ddptypes "
                 "constructors; part 2: %d ordered pairs (source, target) of the %d types of the depth-%d closure expressible in the surface syntax, each in three positions "
@@ -441,8 +466,11 @@ def replay(path):
             print("replay: the pair cannot be rebuilt from the closure")
             return 2
         with Scratch("c14r") as sc:
-            obs, src = observe(sc, tys, [(s.idx, t.idx)], "replay", declare_all=False)
-            ok = judge(chk, tys, (s.idx, t.idx), obs[0], src, None)
+            try:
+                obs, src = observe(sc, tys, [(s.idx, t.idx)], "replay", declare_all=False)
+                ok = judge(chk, tys, (s.idx, t.idx), obs[0], src, None)
+            finally:
+                close_probes()
         return 0 if ok and not chk.violations and not chk.known_hits else 1
     # in-process laws: re-run the sweep that found it
     args = json.load(open(os.path.join(path, "args.json"))) if os.path.exists(os.path.join(path, "args.json")) else ["--depth", "3", "--pairs"]
